@@ -97,6 +97,12 @@ class MxEndpoint {
     int dtls_timer();                     // resend timer fired: returns number of bytes now pending
     int app_send(const unsigned char *p, size_t n, bool use_writebuf = false);
     int app_close();
+    // other application write routes (C15): matrixSslEncodeToUserBuf (ciphertext into a caller buffer), and a write split in two halves
+    // around other events - matrixSslGetWritebuf now, matrixSslEncodeWritebuf later
+    int app_send_userbuf(const unsigned char *p, size_t n, Bytes *wire);
+    int write_begin(size_t n);                    // GetWritebuf; returns room (<= 0: refused)
+    int write_commit(const unsigned char *p, size_t n);   // EncodeWritebuf of what write_begin reserved; PS_FAILURE if the reservation is stale
+    unsigned char *wb_ptr_ = nullptr; int wb_room_ = 0; const void *wb_outbuf_ = nullptr; int wb_outlen_ = 0;
     bool is_complete();
     bool is_dead() const { return got_error || got_fatal_alert || got_close_notify || request_close || app_closed; }
     bool is_resumed();
